@@ -80,7 +80,14 @@ class RefModel(object):
                 else:
                     flat = cn.get('flat') is True or (cn.get('flat') is None and len(sm['shape']) <= 1)
                     ref = np.arange(ssize) if flat else np.arange(ssize).reshape(sm['shape'])
-                    pos = np.asarray(ref[dec_idx(cn['idx'])]).ravel()
+                    sel = np.asarray(ref[dec_idx(cn['idx'])])
+                    if cn.get('idx2') is not None:
+                        # second level (Group.promotes src_indices) indexes what the first level delivers
+                        if sel.shape == ():
+                            sel = sel.reshape(1)
+                        flat2 = cn.get('flat2') is True or (cn.get('flat2') is None and sel.ndim <= 1)
+                        sel = np.asarray((sel.ravel() if flat2 else sel)[dec_idx(cn['idx2'])])
+                    pos = sel.ravel()
                 f, o = conv(sm['units'], v.get('units'))
                 if pos.size != n:
                     raise ValueError(f"spec error: input {an} size {n} but index selects {pos.size}")
